@@ -8,7 +8,10 @@ Oracle: the harness deep-copies the argument at call time (m_i).  After the
 sessions, for every write with non-empty m_i the shard whose file holds
 example i records custom_metadata == json_roundtrip(m_i); and iterating with
 shard_filter = (custom_metadata == m) returns, among the examples written with
-non-empty metadata, exactly those written with m.  Examples written without
+non-empty metadata, exactly those written with m -- and the same examples when
+the filter is combined with a custom_metadata_type_limit larger than the
+number of shards (metamorphic: a limit that cannot restrict anything; only
+where all recorded values are hashable).  Examples written without
 metadata carry no obligation (documented retroactive labelling stays legal).
 """
 from __future__ import annotations
@@ -186,8 +189,15 @@ def run_case(case, ctx):
         where = {}
         for split, entry in tree["splits"].items():
             for sh in dsops.shards_in_order(entry["node"]):
-                for ex in dsops.decode_shard(root / "ds" / sh["files"][0],
-                                             desc):
+                try:
+                    stored = dsops.decode_shard(root / "ds" / sh["files"][0],
+                                                desc)
+                except Exception as exc:  # pylint: disable=broad-except
+                    ctx.fail("label", ("listed-shard-undecodable",
+                                       type(exc).__name__),
+                             f"{sh['files'][0]} does not decode: {exc!r}")
+                    continue
+                for ex in stored:
                     where[dsops.ex_id_of(ex)] = sh
         for ex_id, split, m_i in written:
             if m_i is None:
@@ -236,6 +246,34 @@ def run_case(case, ctx):
                         f"selecting shards with metadata {m} in {split} "
                         f"returns obligated examples {got_obl}, written with "
                         f"it: {want}")
+                # the same selection combined with a per-metadata shard limit
+                # which cannot restrict anything (more than there are shards)
+                # selects the same examples (the limit hashes the values, so
+                # only where all recorded values are hashable)
+                flat = all(
+                    all(isinstance(v, (str, int, float, bool, type(None)))
+                        for v in sh["meta"].values())
+                    for sh in dsops.shards_in_order(
+                        tree["splits"][split]["node"]))
+                if flat:
+                    try:
+                        got2 = [
+                            dsops.ex_id_of(e) for e in dsops.read_all(
+                                fresh, split, "sync", shuffle=0,
+                                custom_metadata_type_limit=10**6,
+                                shard_filter=lambda s, m=m:
+                                s.custom_metadata == m)
+                        ]
+                    except ValueError:
+                        got2 = []
+                    if got2 != got:
+                        ctx.fail(
+                            "select", ("filter-with-unrestrictive-limit",),
+                            f"selecting shards with metadata {m} in {split} "
+                            f"returns {got}, together with "
+                            f"custom_metadata_type_limit=10**6 it returns "
+                            f"{got2}")
+                    ctx.label("filter+limit")
                 ctx.count("filters")
                 ctx.evaluated()
         aba = False
